@@ -176,20 +176,26 @@ func Main(m *testing.M, id, level, rule string, assumptions ...string) {
 }
 
 func (r *Run) loadKnown() {
-	raw, err := os.ReadFile(filepath.Join(r.Root, "known_findings.json"))
-	if err != nil {
-		return
-	}
-	var all struct {
-		Findings []KnownFinding `json:"findings"`
-	}
-	if err := json.Unmarshal(raw, &all); err != nil {
-		fmt.Printf("INCONCLUSIVE property=%s known_findings.json does not parse: %v\n", r.ID, err)
-		os.Exit(2)
-	}
-	for _, k := range all.Findings {
-		if k.Property == r.ID {
-			r.known = append(r.known, k)
+	files := []string{filepath.Join(r.Root, "known_findings.json")}
+	staged, _ := filepath.Glob(filepath.Join(r.Root, "known_findings.d", "*.json"))
+	sort.Strings(staged)
+	files = append(files, staged...)
+	for _, f := range files {
+		raw, err := os.ReadFile(f)
+		if err != nil {
+			continue
+		}
+		var all struct {
+			Findings []KnownFinding `json:"findings"`
+		}
+		if err := json.Unmarshal(raw, &all); err != nil {
+			fmt.Printf("INCONCLUSIVE property=%s %s does not parse: %v\n", r.ID, f, err)
+			os.Exit(2)
+		}
+		for _, k := range all.Findings {
+			if k.Property == r.ID {
+				r.known = append(r.known, k)
+			}
 		}
 	}
 }
